@@ -196,6 +196,15 @@ func classify(m *chainsm.Machine) (string, bool) {
 	if m.OrphanDeliveries > 0 {
 		vk.Class("also/orphan-delivery")
 	}
+	if m.RespendReorgs > 0 {
+		vk.Class("also/reorg-respends-restored-output-with-another-tx")
+	}
+	if m.ReminedReorgs > 0 {
+		vk.Class("also/reorg-mines-disconnected-tx-again")
+	}
+	if m.MaxReorgDepth >= 3 {
+		vk.Class("also/reorg-depth>=3")
+	}
 	if !m.AutoPool {
 		vk.Class("also/manual-pool-maintenance")
 	}
